@@ -98,13 +98,13 @@ class TWorld:
     impl = 'thread'
 
     def __init__(self, config=None, coroutine_handlers=False, app_kwargs=None, ws_read_timeout=False,
-                 legacy_disconnect=False):
+                 legacy_disconnect=False, clock=None, sched=None):
         import engineio
-        self.clock = vclock.reset()
+        self.clock = clock or vclock.reset()
         vclock.patch_engineio_time()
         self.rand = patch_secrets()
         install_driver()
-        self.sched = vsched.Sched(self.clock)
+        self.sched = sched or vsched.Sched(self.clock)
         vsched.set_sched(self.sched)
 
         class VServer(engineio.Server):
